@@ -371,6 +371,7 @@ def run(chk):
                     chk.violation(dict(facts_of(case, rr[case["id"]], kind, detail, extra), history=True))
         chk.parts["run.histories"] = {"cases": len(hist), "second_handshake_completed": nres, "violations": nviol}
         chk.traces(len(hist))
+    client_sig(chk, binary)
     if total_ok < 500 or total_fail < 200:
         raise vlib.Inconclusive("vacuous negotiation run: %d completed, %d failed handshakes" % (total_ok, total_fail))
     chk.coverage["rule"] = ("TLC enumerates every assignment that differs from the base point in <= 3 of the 19 dimensions (client/server x "
@@ -386,8 +387,72 @@ def run(chk):
         "alert on the wire = alert.out hook in Conn.notify plus a captured plaintext alert record or the peer's alert.in event"]
 
 
+SIGCODE = {"ecdsa_sha256": 0x0403, "ecdsa_sha384": 0x0503, "ecdsa_sha512": 0x0603, "ed25519": 0x0807,
+           "rsa_pkcs1_sha256": 0x0401, "rsa_pkcs1_sha384": 0x0501, "rsa_pkcs1_sha512": 0x0601}
+
+
+def run_client_sig(binary, cases):
+    wd = vlib.scratch("c11s")
+    try:
+        inp, out = os.path.join(wd, "in"), os.path.join(wd, "out")
+        json.dump([{"ver": c["ver"], "csigs": [SIGCODE[x] for x in c["csigs"]], "ssigs": [SIGCODE[x] for x in c["ssigs"]]} for c in cases],
+                  open(inp, "w"))
+        rc, txt = vlib.run_test(binary, "TestVerifC11ClientSig", {"VERIF_IN": inp, "VERIF_OUT": out}, timeout=900)
+        if rc != 0 or not os.path.exists(out):
+            raise vlib.Inconclusive("client signature harness failed: " + txt[-1500:])
+        rows = vlib.read_ndjson(out)
+        if len(rows) != len(cases):
+            raise vlib.Inconclusive("client signature harness returned %d of %d rows" % (len(rows), len(cases)))
+        return rows
+    finally:
+        shutil.rmtree(wd, ignore_errors=True)
+
+
+def client_sig_violation(c, r):
+    allowed = {SIGCODE[x] for x in c["allowed"]}
+    if r["both"] and r["scheme"] and r["scheme"] not in allowed:
+        return "client signed CertificateVerify with scheme 0x%04x, outside the schemes both sides allow (%s)" % (r["scheme"], sorted(c["allowed"]))
+    if r["both"] and not allowed:
+        return "handshake completed although the two signature-scheme lists share no scheme fitting the ECDSA keys"
+    return None
+
+
+def client_sig(chk, binary):
+    """spec/ClientSig.tla: the client's CertificateVerify scheme lies in both endpoints' lists."""
+    chk.add_tlc("clientsig.mc", vlib.tlc_check("ClientSig", "ClientSig.mc.cfg", timeout=300, workers=2))
+    gen = vlib.tlc_generate("ClientSig", "ClientSig.gen.cfg", timeout=300)
+    chk.add_tlc("clientsig.gen", gen)
+    cases = gen.printed
+    if len(cases) < 100:
+        raise vlib.Inconclusive("too few client signature cases")
+    rows = run_client_sig(binary, cases)
+    done = seen = 0
+    for c, r in zip(cases, rows):
+        key = "clientsig/%s/c=%s/s=%s" % (c["ver"], "+".join(c["csigs"]) or "default", "+".join(c["ssigs"]) or "default")
+        if r.get("lab"):
+            continue    # a list the library refuses to construct is outside the domain
+        chk.evaluated(key=key)
+        chk.distinct.add(key)
+        chk.traces(1)
+        done += 1 if r["both"] else 0
+        seen += 1 if r["scheme"] else 0
+        v = client_sig_violation(c, r)
+        if v:
+            chk.violation({"finding": "client-signature-scheme", "kind": "client-signature-scheme", "what": v, "cscase": c, "observed": r})
+    if done < 20 or seen < 20:
+        raise vlib.Inconclusive("vacuous client signature part: %d completed, %d CertificateVerify schemes seen" % (done, seen))
+    chk.parts["client_signature"] = {"cases": len(cases), "completed": done, "schemes_seen": seen}
+
+
 def replay(chk, path):
     facts = json.load(open(path))
+    if "cscase" in facts:
+        c = facts["cscase"]
+        r = run_client_sig(vlib.build("root"), [c])[0]
+        chk.evaluated(key="replay")
+        if client_sig_violation(c, r):
+            chk.violation(dict(facts, replayed=True), replay=path)
+        return
     case = facts["case"]
     binary = vlib.build("root")
     rows = run_cases(binary, [case], budget_ms=6000)
